@@ -177,7 +177,7 @@ def check_pair(prop, pair, tier, keep):
         rc, out, err, _ = run(cmd, 300, 8)
         if rc == 0:
             cmd = ["goto-instrument", "--generate-function-body", "^(" + "|".join(pair["remove_body"]) + ")$",
-                   "--generate-function-body-options", "nondet-return", r0, rgb]
+                   "--generate-function-body-options", pair.get("remove_body_opt", "nondet-return"), r0, rgb]
             res["cmds"].append(" ".join(cmd))
             rc, out, err, _ = run(cmd, 300, 8)
         if rc != 0:
